@@ -84,6 +84,24 @@ def compare(ctx, w, fn, paths, rule, scenarios, build, model, label):
 KEY_FIELDS = {}
 
 
+# the functions the decision tables are written against (sub-checks appear in the tables by name); every OTHER free function of the two
+# event_auth modules is a private helper of one of them and is analysed in place, so extracting a helper does not change the table
+ANCHOR_FNS = {"check_room_member", "check_room_member_join", "check_room_member_invite", "check_third_party_invite", "check_room_member_leave",
+              "check_room_member_ban", "check_room_member_knock", "auth_types_for_event", "auth_check", "check_room_create", "check_room_power_levels",
+              "check_power_level_maps", "check_room_redaction"}
+
+
+def helper_inline(n):
+    if "{closure" in n:
+        return True
+    for mod in (RM, EA):
+        if n.startswith(mod):
+            rest = n[len(mod):]
+            if "::" not in rest and "<" not in rest and rest not in ANCHOR_FNS and not (mod == EA and rest.startswith("room_member")):
+                return True
+    return False
+
+
 def run(ctx):
     fx = ctx.facts("A")
     w = W.World(fx, ["ruma_state_res", "ruma_common", "ruma_events"])
@@ -91,7 +109,7 @@ def run(ctx):
     versions = T.version_rules(ctx, w, ["authorization"])
     if len(versions) < 11:
         return
-    dex = D.Dex(w.lookup, adt_discr=w.adt_discr, unroll=1, inline=lambda n: "{closure" in n)
+    dex = D.Dex(w.lookup, adt_discr=w.adt_discr, unroll=1, inline=helper_inline)
 
     # ---- every flag is read where the spec makes the distinction --------------------------------------
     ctx.rule("C08.flags-used", "each AuthorizationRules switch is read by the function that implements the distinction it stands for")
@@ -195,7 +213,7 @@ def run(ctx):
 
     # ---- third-party invite prefix ---------------------------------------------------------------------------
     f = w.fn(RM + "check_third_party_invite")
-    dex_t = D.Dex(w.lookup, adt_discr=w.adt_discr, unroll=0, inline=lambda n: "{closure" in n)
+    dex_t = D.Dex(w.lookup, adt_discr=w.adt_discr, unroll=0, inline=helper_inline)
     paths = dex_t.paths(f, [D.sym("ev"), D.sym("tpi"), D.sym("target"), D.sym("fetch")])
     scen = []
     for tm, tok, mx, mt, found, ss in itertools.product(MEMBERSHIPS, (True, False), (True, False), (True, False), (True, False), (True, False)):
@@ -231,7 +249,7 @@ def run(ctx):
               bad_msg=f"{len(bad)} disagreements, first: {bad[:1]}")
     ctx.count("scenarios", n_pref)
     # the signature loop is an exists-loop: Ok only from a successful verification, Err only after exhaustion
-    dex_l = D.Dex(w.lookup, adt_discr=w.adt_discr, unroll=1, inline=lambda n: "{closure" in n, max_paths=200000)
+    dex_l = D.Dex(w.lookup, adt_discr=w.adt_discr, unroll=1, inline=helper_inline, max_paths=200000)
     try:
         lp = dex_l.paths(f, [D.sym("ev"), D.sym("tpi"), D.sym("target"), D.sym("fetch")])
         allow = [p for p in lp if A.outcome(p) == "allow"]
